@@ -1,0 +1,15 @@
+//go:build verif
+
+package util
+
+import "sync/atomic"
+
+var verifDelayScalePermille atomic.Int64
+
+func init() { verifDelayScalePermille.Store(1000) }
+
+// VerifSetDelayScale scales the random connection initiation delay (1000 = unchanged, 0 = no delay)
+func VerifSetDelayScale(permille int) { verifDelayScalePermille.Store(int64(permille)) }
+
+// VerifDelayMs scales a delay given in milliseconds
+func VerifDelayMs(ms int) int { return int(int64(ms) * verifDelayScalePermille.Load() / 1000) }
